@@ -531,9 +531,11 @@ pub fn op_insert_copy<K: Kern<D>, const D: usize>(tr: &mut Tracer, obj: usize, d
     match kind {
         "nearcopy" => c[0] += 2f64.powi(-36),
         "farcopy" => c[0] += 2f64.powi(-30),
+        "farcopy27" => c[0] += 2f64.powi(-27),
+        "farcopy24" => c[D - 1] -= 2f64.powi(-24),
         _ => {}
     }
-    if c[0] == target.point().coords()[0] && kind != "copy" {
+    if c == *target.point().coords() && kind != "copy" {
         return true; // offset lost to rounding at this magnitude: not a meaningful probe
     }
     let (m, _, _, _) = tr.coord_proj(target.point().coords());
